@@ -873,6 +873,262 @@ theorem writePL_location_value (st : PState) (dflt : Nat → Int) (layout locs :
   have e3 : storedValue (byLoc (writePL st dflt layout locs)) idx p dflt = storedValue (writeP st dflt layout) idx p dflt := rfl
   rw [e3, writeP_storedValue st dflt layout idx serial p hinv hs]
 
+/-! ### the batched call (`getHistoriesByLocation` for several objects) -/
+
+/-- value the per-location table holds for location `L`, parameter `p`, step `k` -/
+def lookupT (t : List (Nat × Hist)) (L p : Nat) (k : Nat × Nat) : Option Int := lookupH ((t.lookup L).getD []) p k
+
+private theorem lookupK_map_other {β} (t : List (Nat × β)) (p p' : Nat) (f : β → β) (hp : p' ≠ p) :
+    (t.map (fun e => if e.1 == p then (p, f e.2) else e)).lookup p' = t.lookup p' := by
+  induction t with
+  | nil => rfl
+  | cons e t ih =>
+    obtain ⟨ek, ev⟩ := e
+    simp only [List.map_cons]
+    by_cases he : ek = p
+    · subst he
+      have hk : (p' == ek) = false := by simpa using hp
+      simp only [beq_self_eq_true, if_true, List.lookup_cons, hk, ih]
+    · have : (ek == p) = false := by simpa using he
+      simp only [this, Bool.false_eq_true, if_false, List.lookup_cons, ih]
+
+private theorem lookupK_map_same {β} (t : List (Nat × β)) (p : Nat) (f : β → β) :
+    (t.map (fun e => if e.1 == p then (p, f e.2) else e)).lookup p = (t.lookup p).map f := by
+  induction t with
+  | nil => rfl
+  | cons e t ih =>
+    obtain ⟨ek, ev⟩ := e
+    simp only [List.map_cons]
+    by_cases he : ek = p
+    · subst he
+      simp only [beq_self_eq_true, if_true, List.lookup_cons, Option.map_some]
+    · have h1 : (ek == p) = false := by simpa using he
+      have h2 : (p == ek) = false := by simpa using (fun h => he h.symm)
+      simp only [h1, Bool.false_eq_true, if_false, List.lookup_cons, h2, ih]
+
+/-- the table keeps its keys -/
+theorem setLoc_isSome (t : List (Nat × Hist)) (L p : Nat) (k : Nat × Nat) (v : Int) (L' : Nat) :
+    ((setLoc t L p k v).lookup L').isSome = (t.lookup L').isSome := by
+  unfold setLoc
+  by_cases h : L' = L
+  · subst h; rw [lookupK_map_same t L' (fun h => setHist h p k v)]; cases t.lookup L' <;> rfl
+  · rw [lookupK_map_other t L L' (fun h => setHist h p k v) h]
+
+theorem lookupT_setLoc (t : List (Nat × Hist)) (L p : Nat) (k : Nat × Nat) (v : Int) (L' p' : Nat) (k' : Nat × Nat)
+    (hL : (t.lookup L').isSome = true) :
+    lookupT (setLoc t L p k v) L' p' k' = if L' = L ∧ p' = p ∧ k' = k then some v else lookupT t L' p' k' := by
+  unfold lookupT setLoc
+  by_cases h : L' = L
+  · subst h
+    rw [lookupK_map_same t L' (fun h => setHist h p k v)]
+    cases hl : t.lookup L' with
+    | none => rw [hl] at hL; simp at hL
+    | some d =>
+      simp only [Option.map_some, Option.getD_some, true_and]
+      rw [lookupH_setHist]
+  · rw [lookupK_map_other t L L' (fun h => setHist h p k v) h]
+    simp [h]
+
+/-- one parameter, the rows of one group: every row's location gets the row's value -/
+theorem lookupT_rows (rows : List (Nat × Nat)) (p : Nat) (k : Nat × Nat) (f : Nat → Int) (t : List (Nat × Hist))
+    (L' p' : Nat) (k' : Nat × Nat) (hL : (t.lookup L').isSome = true)
+    (hfun : ∀ r ∈ rows, ∀ r' ∈ rows, r.2 = r'.2 → r.1 = r'.1) :
+    lookupT (rows.foldl (fun a r => setLoc a r.2 p k (f r.1)) t) L' p' k'
+      = match rows.find? (fun r => r.2 == L') with
+        | some r => if p' = p ∧ k' = k then some (f r.1) else lookupT t L' p' k'
+        | none => lookupT t L' p' k' := by
+  induction rows generalizing t with
+  | nil => simp
+  | cons r rest ih =>
+    simp only [List.foldl_cons]
+    have hL2 : ((setLoc t r.2 p k (f r.1)).lookup L').isSome = true := by rw [setLoc_isSome]; exact hL
+    rw [ih _ hL2 (fun a ha b hb => hfun a (by simp [ha]) b (by simp [hb])), lookupT_setLoc _ _ _ _ _ _ _ _ hL]
+    by_cases hr : r.2 = L'
+    · have : (r.2 == L') = true := by simpa using hr
+      simp only [List.find?_cons, this]
+      cases hf : rest.find? (fun x => x.2 == L') with
+      | none => simp [hr.symm]
+      | some r2 =>
+        have hm := List.mem_of_find?_eq_some hf
+        have h2 : r2.2 = L' := by simpa using List.find?_some hf
+        have : r.1 = r2.1 := hfun r (by simp) r2 (by simp [hm]) (hr.trans h2.symm)
+        simp only []
+        by_cases hpk : p' = p ∧ k' = k
+        · simp [hpk, this]
+        · simp [hpk]
+    · have : (r.2 == L') = false := by simpa using hr
+      simp only [List.find?_cons, this]
+      have hne : ¬ (L' = r.2) := fun h => hr h.symm
+      cases rest.find? (fun x => x.2 == L') <;> simp [hne]
+
+
+theorem rowsFold_isSome (rows : List (Nat × Nat)) (p : Nat) (k : Nat × Nat) (f : Nat → Int) (t : List (Nat × Hist)) (L' : Nat) :
+    ((rows.foldl (fun a r => setLoc a r.2 p k (f r.1)) t).lookup L').isSome = (t.lookup L').isSome := by
+  induction rows generalizing t with
+  | nil => rfl
+  | cons r rest ih => simp only [List.foldl_cons]; rw [ih, setLoc_isSome]
+
+theorem mem_locRows (g : PSnap) (req : List Nat) (i L : Nat) :
+    (i, L) ∈ locRows g req ↔ g.locs[i]? = some L ∧ L ∈ req := by
+  unfold locRows
+  simp only [List.mem_map, List.mem_filter, Prod.mk.injEq]
+  constructor
+  · rintro ⟨⟨a, b⟩, ⟨hm, hc⟩, h1, h2⟩
+    simp only at h1 h2
+    subst h1; subst h2
+    rw [List.mem_zipIdx_iff_getElem?] at hm
+    exact ⟨by simpa using hm, by simpa using hc⟩
+  · rintro ⟨h1, h2⟩
+    refine ⟨(L, i), ⟨?_, by simpa using h2⟩, rfl, rfl⟩
+    rw [List.mem_zipIdx_iff_getElem?]
+    simpa using h1
+
+private theorem nodup_getElem?_inj (l : List Nat) (hn : l.Nodup) (i j x : Nat) (hi : l[i]? = some x) (hj : l[j]? = some x) : i = j := by
+  rw [List.getElem?_eq_some_iff] at hi hj
+  obtain ⟨h1, e1⟩ := hi
+  obtain ⟨h2, e2⟩ := hj
+  exact (List.getElem_inj hn).mp (e1.trans e2.symm)
+
+/-- **one time-step group of the batched call**: whatever the ORDER in which the locations were requested, each requested
+location that is occupied in the snapshot receives, for every requested parameter, the value of ITS OWN row (`i` = the row whose
+location it is), and nothing else in the table changes -/
+theorem locGroup_lookup (g : PSnap) (req params : List Nat) (dflt : Nat → Int) (t : List (Nat × Hist))
+    (hnd : g.locs.Nodup) (L' p' : Nat) (k' : Nat × Nat) (hL : (t.lookup L').isSome = true) :
+    lookupT (locGroup g req params dflt t) L' p' k'
+      = match (locRows g req).find? (fun r => r.2 == L') with
+        | some r => if p' ∈ params ∧ k' = (g.cycle, g.node) then some (storedValue g r.1 p' dflt) else lookupT t L' p' k'
+        | none => lookupT t L' p' k' := by
+  have hfun : ∀ r ∈ locRows g req, ∀ r' ∈ locRows g req, r.2 = r'.2 → r.1 = r'.1 := by
+    intro r hr r' hr' he
+    obtain ⟨i, L⟩ := r
+    obtain ⟨j, M⟩ := r'
+    simp only at he
+    subst he
+    exact nodup_getElem?_inj g.locs hnd i j L ((mem_locRows g req i L).mp hr).1 ((mem_locRows g req j L).mp hr').1
+  unfold locGroup
+  induction params generalizing t with
+  | nil => cases (locRows g req).find? (fun r => r.2 == L') <;> simp
+  | cons p rest ih =>
+    simp only [List.foldl_cons]
+    have hL2 := (rowsFold_isSome (locRows g req) p (g.cycle, g.node) (fun i => storedValue g i p dflt) t L').trans hL
+    rw [ih _ hL2, lookupT_rows (locRows g req) p (g.cycle, g.node) (fun i => storedValue g i p dflt) t L' p' k' hL hfun]
+    cases (locRows g req).find? (fun r => r.2 == L') with
+    | none => rfl
+    | some r =>
+      simp only []
+      by_cases h1 : p' ∈ rest <;> by_cases h2 : p' = p <;> by_cases h3 : k' = (g.cycle, g.node) <;> simp [h1, h2, h3]
+
+/-- the row found for an occupied, requested location is the row whose location it is -/
+theorem locRows_find (g : PSnap) (req : List Nat) (hnd : g.locs.Nodup) (L' i : Nat) (hi : g.locs[i]? = some L') (hreq : L' ∈ req) :
+    (locRows g req).find? (fun r => r.2 == L') = some (i, L') := by
+  have hm : (i, L') ∈ locRows g req := (mem_locRows g req i L').mpr ⟨hi, hreq⟩
+  cases hf : (locRows g req).find? (fun r => r.2 == L') with
+  | none =>
+    rw [List.find?_eq_none] at hf
+    exact absurd (by simp) (hf (i, L') hm)
+  | some r =>
+    obtain ⟨j, M⟩ := r
+    have hM : M = L' := by simpa using List.find?_some hf
+    subst hM
+    have := nodup_getElem?_inj g.locs hnd j i M ((mem_locRows g req j M).mp (List.mem_of_find?_eq_some hf)).1 hi
+    rw [this]
+
+/-- **C06-b in one line**: in the batched location history, a requested location `L` occupied by row `i` of the snapshot gets
+that row's value — independent of where `L` stands in the caller's list -/
+theorem locGroup_value (g : PSnap) (req params : List Nat) (dflt : Nat → Int) (t : List (Nat × Hist))
+    (hnd : g.locs.Nodup) (L p i : Nat) (hL : (t.lookup L).isSome = true) (hreq : L ∈ req) (hi : g.locs[i]? = some L)
+    (hp : p ∈ params) :
+    lookupT (locGroup g req params dflt t) L p (g.cycle, g.node) = some (storedValue g i p dflt) := by
+  rw [locGroup_lookup g req params dflt t hnd L p _ hL, locRows_find g req hnd L i hi hreq]
+  simp [hp]
+
+/-- a location that is empty in the snapshot keeps what it had -/
+theorem locGroup_empty (g : PSnap) (req params : List Nat) (dflt : Nat → Int) (t : List (Nat × Hist))
+    (hnd : g.locs.Nodup) (L p : Nat) (k : Nat × Nat) (hL : (t.lookup L).isSome = true) (hempty : ∀ i : Nat, g.locs[i]? ≠ some L) :
+    lookupT (locGroup g req params dflt t) L p k = lookupT t L p k := by
+  rw [locGroup_lookup g req params dflt t hnd L p k hL]
+  cases hf : (locRows g req).find? (fun r => r.2 == L) with
+  | none => rfl
+  | some r =>
+    obtain ⟨j, M⟩ := r
+    have hM : M = L := by simpa using List.find?_some hf
+    subst hM
+    exact absurd ((mem_locRows g req j M).mp (List.mem_of_find?_eq_some hf)).1 (hempty j)
+
+theorem locGroup_isSome (g : PSnap) (req params : List Nat) (dflt : Nat → Int) (t : List (Nat × Hist)) (L' : Nat) :
+    ((locGroup g req params dflt t).lookup L').isSome = (t.lookup L').isSome := by
+  unfold locGroup
+  induction params generalizing t with
+  | nil => rfl
+  | cons p rest ih =>
+    simp only [List.foldl_cons]; rw [ih]
+    exact rowsFold_isSome (locRows g req) p (g.cycle, g.node) (fun i => storedValue g i p dflt) t L'
+
+private theorem valAt_byLoc (groups : List PSnap) (L : Nat) (dflt : Nat → Int) (k : Nat × Nat) (p : Nat) :
+    valAt (groups.map byLoc) L dflt k p =
+      match groups.find? (fun g => (g.cycle, g.node) == k) with
+      | some g => (g.locs.idxOf? L).map (fun idx => storedValue g idx p dflt)
+      | none => none := by
+  unfold valAt
+  rw [List.find?_map]
+  have : ((fun g : PSnap => (g.cycle, g.node) == k) ∘ byLoc) = (fun g : PSnap => (g.cycle, g.node) == k) := by
+    funext g; rfl
+  rw [this]
+  cases groups.find? (fun g => (g.cycle, g.node) == k) <;> rfl
+
+private theorem idxOf?_none (l : List Nat) (a : Nat) (h : l.idxOf? a = none) (i : Nat) : l[i]? ≠ some a := by
+  intro hi
+  unfold List.idxOf? at h
+  rw [List.findIdx?_eq_none_iff] at h
+  have := h a (List.mem_of_getElem? hi)
+  simp at this
+
+/-- **the batched location history equals the per-location one**: `getHistoriesByLocation(comps, …)` gives every requested
+location — wherever it stands in the caller's list, whatever the row order of each snapshot — for every requested step and
+parameter the value in the row of THAT location (nothing if it was empty at that step), i.e. exactly what `valAt … byLoc` says -/
+theorem locHistories_lookup (groups : List PSnap) (hnd : ∀ g ∈ groups, g.locs.Nodup) (req params : List Nat) (dflt : Nat → Int)
+    (steps : List (Nat × Nat)) (t t' : List (Nat × Hist)) (h : locHistories groups req params dflt steps t = some t')
+    (L : Nat) (hreq : L ∈ req) (hL : (t.lookup L).isSome = true) (p : Nat) (k : Nat × Nat) :
+    lookupT t' L p k = if p ∈ params ∧ k ∈ steps ∧ (valAt (groups.map byLoc) L dflt k p).isSome
+      then valAt (groups.map byLoc) L dflt k p else lookupT t L p k := by
+  induction steps generalizing t with
+  | nil => simp [locHistories] at h; subst h; simp
+  | cons step rest ih =>
+    unfold locHistories at h
+    cases hf : groups.find? (fun g => (g.cycle, g.node) == step) with
+    | none => rw [hf] at h; simp at h
+    | some g =>
+      rw [hf] at h
+      simp only [] at h
+      have hg : g ∈ groups := List.mem_of_find?_eq_some hf
+      have hkey : (g.cycle, g.node) = step := by simpa using List.find?_some hf
+      have hL2 : ((locGroup g req params dflt t).lookup L).isSome = true := by rw [locGroup_isSome]; exact hL
+      rw [ih _ h hL2]
+      have hv : valAt (groups.map byLoc) L dflt step p = (g.locs.idxOf? L).map (fun idx => storedValue g idx p dflt) := by
+        rw [valAt_byLoc, hf]
+      cases hi : g.locs.idxOf? L with
+      | none =>
+        rw [locGroup_empty g req params dflt t (hnd g hg) L p k hL (idxOf?_none g.locs L hi)]
+        by_cases hk : k = step
+        · subst hk; simp [hv, hi]
+        · simp [hk]
+      | some idx =>
+        have hi' := idxOf?_getElem g.locs L idx hi
+        by_cases hk : k = step
+        · subst hk
+          by_cases hp : p ∈ params
+          · have hval := locGroup_value g req params dflt t (hnd g hg) L p idx hL hreq hi' hp
+            rw [hkey] at hval
+            simp [hp, hv, hi, hval]
+          · rw [locGroup_lookup g req params dflt t (hnd g hg) L p k hL]
+            cases (locRows g req).find? (fun r => r.2 == L) <;> simp [hp]
+        · rw [locGroup_lookup g req params dflt t (hnd g hg) L p k hL]
+          have : ¬ k = (g.cycle, g.node) := by rw [hkey]; exact hk
+          cases (locRows g req).find? (fun r => r.2 == L) <;> simp [hk, this]
+
+example : (locHistories [writePL ⟨[1], [((4, 1), 40), ((5, 1), 50), ((6, 1), 60)], 0, 0⟩ (fun _ => 7) [4, 5, 6] [10, 11, 12]]
+    [12, 10] [1] (fun _ => 7) [(0, 0)] [(12, []), (10, [])]) = some [(12, [(1, [((0, 0), 60)])]), (10, [(1, [((0, 0), 40)])])] := by rfl
+
 /-! ## Merging and splitting -/
 
 /-- is the group's (cycle, node) before the restart point? -/
